@@ -1000,6 +1000,9 @@ func C15(run *report.Run) {
 		}
 		wideC15(run, acc, 5, 4)
 		wideC15(run, acc, 4, 16)
+		heightC15(run, acc, 4, 4)
+		heightC15(run, acc, 2, 8)
+		heightC15(run, acc, 3, 5)
 		ruler := []uint8{0, 1, 0, 2, 0, 1, 0, 3, 0, 1, 0, 2, 0, 1, 0}
 		wideC15With(run, acc, 1, 2, ruler, 5)
 		wideC15With(run, acc, 3, 2, ruler, 5)
